@@ -215,7 +215,7 @@ async fn engine_segment(t: &mut Trace, rng: &mut impl Rng, seg: u64, ops: u64) {
         }
     };
     let cfg = IPDiversityConfig::default();
-    let scenario = seg % 5;
+    let scenario = seg % 6;
     t.ev(json!({"ev":"Reset","api":"engine","cfg":cfg_json(&cfg, ppm_of(cfg.max_network_fraction)),"ns":0,"scenario":scenario}));
     let mut e = Eng { eng };
     let fail = rng.gen_bool(0.5);
@@ -243,6 +243,25 @@ async fn engine_segment(t: &mut Trace, rng: &mut impl Rng, seg: u64, ops: u64) {
             e.add(t, 1, v4(60, o, 1, 2), "plain").await;
             e.add(t, 1, v4(60, o, 1, 3), "plain").await;
             e.add(t, 17, v4(60, o, 1, 4), "plain").await;
+        }
+        5 => {
+            // the regional gate refuses part-way: one region (first octets 248..251) is filled to its cap with nodes that share
+            // no address level (own /16 each, seven buckets), the next candidate is refused by the regional gate AFTER the
+            // address gate passed; then a node leaves and the refused address is offered again
+            let n_fill = 50u64;
+            for n in 0..n_fill {
+                let i = (n / 8) * 16 + n % 8;
+                e.add(t, i, v4(248 + (n % 4) as u8, 1 + (n / 4) as u8, 1, 1), "plain").await;
+            }
+            let extra = v4(248 + rng.gen_range(0..4), 200 + rng.gen_range(0..50), 1, 1);
+            let spare = (n_fill / 8) * 16 + n_fill % 8;
+            e.add(t, spare, extra, "plain").await;
+            if rng.gen_bool(0.5) {
+                e.add(t, spare + 1, extra, "plain").await;
+            }
+            let gone = rng.gen_range(0..n_fill);
+            e.rm(t, (gone / 8) * 16 + gone % 8, fail).await;
+            e.add(t, spare + 2, extra, "plain").await;
         }
         _ => {
             // random history over small pools: caps bind, buckets fill, nodes come and go
